@@ -505,7 +505,7 @@ fn touch(a: &Automaton) {
     let _ = a.compile_successors();
     let _ = a.combined_char_partition();
     let _ = (a.num_states(), a.num_final_states());
-    let _ = a.edges().count();
+    let _ = a.states().map(|s| a.edges(s).count()).sum::<usize>();
 }
 
 fn letter_reps(d: &AbsDfa) -> Vec<u32> {
